@@ -14,6 +14,7 @@ import (
 	"net/http/httptest"
 	"os"
 	"path/filepath"
+	"sort"
 	"strings"
 
 	"github.com/ysugimoto/falco/v2/ast"
@@ -45,7 +46,13 @@ type Exec struct {
 	Bound bool              `json:"bd,omitempty"` // carries at least one boundary operand / edge construct
 	Tag   string            `json:"t,omitempty"`  // evidence tag (operator x type pair, function, …)
 	Slow  bool              `json:"sl,omitempty"` // legitimately slow (sleeping director): wall time recorded as a tag only
-	Wrap  string            `json:"w,omitempty"`  // sub: "" plain; "fn": body is wrapped by caller (unused)
+	Alts  []Alt             `json:"a,omitempty"`  // parts of a combination, for localising a violation
+}
+
+// Alt is one part of a combined program run alone.
+type Alt struct {
+	Con  string `json:"c"`
+	Main string `json:"mn"`
 }
 
 type batch struct {
@@ -89,6 +96,19 @@ ratecounter rc2 {}
 penaltybox pb1 {}
 `
 const mainTail = "sub vcl_recv {\n#FASTLY RECV\nreturn(lookup);\n}\n"
+
+func modsText(e *Exec) string {
+	keys := make([]string, 0, len(e.Mods))
+	for k := range e.Mods {
+		keys = append(keys, k)
+	}
+	sort.Strings(keys)
+	var sb strings.Builder
+	for _, k := range keys {
+		sb.WriteString("\n// module " + k + ":\n" + e.Mods[k])
+	}
+	return sb.String()
+}
 
 // ---- lint filter ----------------------------------------------------------------------------------
 
@@ -203,10 +223,11 @@ func runSub(e *Exec) (o obs, program string) {
 	}
 	body := expand(e.Body)
 	subVCL := "sub t {\n" + body + "\n}\n"
-	program = subVCL
+	program = "sub t {\n" + e.Body + "\n}\n"
 	if e.Main != "" {
-		program = mainVCL + "\n// driven in " + e.Scope + ":\n" + subVCL
+		program = e.Main + "\n// driven in " + e.Scope + ":\n" + program
 	}
+	program += modsText(e)
 	if e.Lint {
 		lm := expand(e.Main)
 		lr := lintProgram(lintSourceSub(lm, e.Scope, body))
@@ -313,10 +334,8 @@ func parseRawRequest(raw string) (*http.Request, error) {
 
 func runHTTP(e *Exec) (ho httpObs, program string) {
 	mainVCL := expand(e.Main)
-	program = mainVCL
-	for k, v := range e.Mods {
-		program += "\n// module " + k + ":\n" + v
-	}
+	program = e.Main
+	program += modsText(e)
 	program += "\n// requests:\n"
 	for _, r := range e.Reqs {
 		program += "//   " + clip(strings.ReplaceAll(r, "\r\n", " | "), 200) + "\n"
@@ -432,7 +451,10 @@ func runTester(e *Exec) (to testerObs, program string) {
 		mainVCL = stdDecls + mainTail
 	}
 	test := expand(e.Body)
-	program = "// main.vcl\n" + mainVCL + "\n// main.test.vcl\n" + test
+	program = "// main.test.vcl\n" + e.Body
+	if e.Main != "" {
+		program = "// main.vcl\n" + e.Main + "\n" + program
+	}
 	dir, err := os.MkdirTemp(filepath.Join(fw.Verif, ".build", "tmp"), "c08-tester-")
 	if err != nil {
 		to.class, to.msg = "harness-error", err.Error()
